@@ -2745,7 +2745,7 @@ fn write_c09(w: &mut dyn Write, name: &str, kinds: &[usize], align: Option<usize
 fn origins_for(kinds: &[usize]) -> Vec<String> {
     let mut v = vec!["sys-pre".to_string(), "sys-task".to_string(), "foreign".to_string()];
     for (k, kind) in kinds.iter().enumerate() {
-        if *kind != 0 && *kind != 4 {
+        if *kind != 0 && *kind != 4 && *kind != 6 {
             v.push(format!("arb:{k}"));
         }
     }
@@ -3110,8 +3110,85 @@ fn directed_feeding_c09(w: &mut dyn Write, rng: &mut Rng, thorough: bool) {
     }
 }
 
+/// one scenario with 3–6 arbiters of which `retire` (an ordered subset of the live ones) stop and are joined
+/// once all exist; the stop comes from `origin` (an `arb:k` that is alive then)
+fn write_retire_c09(w: &mut dyn Write, name: &str, rng: &mut Rng, kinds: &[usize], retire: &[usize], origin: &str, mode: &str) {
+    writeln!(w, "case {name} c09").unwrap();
+    for k in kinds {
+        writeln!(w, "arb {}", KINDS9[*k]).unwrap();
+    }
+    if !retire.is_empty() {
+        writeln!(w, "retire {}", retire.iter().map(|x| x.to_string()).collect::<Vec<_>>().join(" ")).unwrap();
+    }
+    let codes = distinct_codes(rng, 2, false);
+    writeln!(w, "stop {origin} {}", codes[0]).unwrap();
+    if rng.chance(1, 3) {
+        writeln!(w, "stop foreign {} {}", codes[1], ["seq", "race"][rng.below(2)]).unwrap();
+    }
+    writeln!(w, "go {mode} j={}", rng.next() % 1_000_000).unwrap();
+}
+
+/// Directed scenarios (both tiers, in front): (a) `backlog` arbiters — the thread inside a task when the
+/// system is stopped, 1100 accepted commands queued behind it: the system's `Stop` queues up too and the
+/// arbiter ends; (b) `retire`: of 3–6 arbiters some stop and are joined, in any order, before the system is
+/// stopped: their `Deregister`s take exactly them out of the registry, every other arbiter is stopped.
+fn directed_backlog_retire_c09(w: &mut dyn Write, rng: &mut Rng, thorough: bool) {
+    const R: usize = 2;
+    const B: usize = 3;
+    const F: usize = 5;
+    const K: usize = 6;
+    let mut n = 0;
+    let mut one = |w: &mut dyn Write, rng: &mut Rng, kinds: &[usize], retire: &[usize], origin: &str, mode: &str| {
+        write_retire_c09(w, &format!("z{n}"), rng, kinds, retire, origin, mode);
+        n += 1;
+    };
+    one(w, rng, &[K], &[], "foreign", "code");
+    one(w, rng, &[R, K], &[], "sys-pre", "run");
+    one(w, rng, &[R, R, R], &[0, 1], "sys-pre", "code");
+    one(w, rng, &[R, B, R, R], &[0, 2], "foreign", "run");
+    one(w, rng, &[R, R, F, R, R], &[1, 0, 3], "arb:4", "code");
+    one(w, rng, &[B, R, R, K, R, R], &[0, 1, 2, 4], "sys-task", "block");
+    writeln!(w, "case z{} c09\narb running\nbatch sys-pre s1 nk s2\ngo code j={}", 6, rng.next() % 1_000_000).unwrap();
+    if thorough {
+        // every ordered subset of 3 and of 4 live arbiters
+        for na in [3usize, 4] {
+            let mut subsets: Vec<Vec<usize>> = vec![vec![]];
+            let mut frontier: Vec<Vec<usize>> = vec![vec![]];
+            for _ in 0..na {
+                let mut next = vec![];
+                for p in &frontier {
+                    for k in 0..na {
+                        if !p.contains(&k) {
+                            let mut q = p.clone();
+                            q.push(k);
+                            next.push(q);
+                        }
+                    }
+                }
+                subsets.extend(next.iter().cloned());
+                frontier = next;
+            }
+            for (i, sub) in subsets.iter().enumerate() {
+                let kinds: Vec<usize> = (0..na).map(|k| [R, R, B, F][(k + i) % 4]).collect();
+                let alive: Vec<usize> = (0..na).filter(|k| !sub.contains(k)).collect();
+                let origin = match (i % 4, alive.first()) {
+                    (3, Some(k)) => format!("arb:{k}"),
+                    (x, _) => ["sys-pre", "foreign", "sys-task", "sys-pre"][x].to_string(),
+                };
+                one(w, rng, &kinds, sub, &origin, ["code", "run", "block"][i % 3]);
+            }
+        }
+        for kinds in [&[K, K][..], &[K, R, K], &[B, K, F]] {
+            for origin in ["sys-pre", "sys-task", "foreign"] {
+                one(w, rng, kinds, &[], origin, "code");
+            }
+        }
+    }
+}
+
 fn gen_c09(a: &Args, w: &mut dyn Write) {
     let mut rng = Rng::new(a.seed ^ 0xC09);
+    directed_backlog_retire_c09(w, &mut rng, a.tier == "thorough");
     directed_feeding_c09(w, &mut rng, a.tier == "thorough");
     directed_block_c09(w, &mut rng, a.tier == "thorough");
     directed_sysarb_stop_c09(w, &mut rng, a.tier == "thorough");
@@ -3155,7 +3232,7 @@ fn gen_c09(a: &Args, w: &mut dyn Write) {
     } else {
         for n in 0..72 {
             let na = [0, 1, 2, 2, 3, 3][rng.below(6)];
-            let kinds: Vec<usize> = (0..na).map(|_| rng.below(6)).collect();
+            let kinds: Vec<usize> = (0..na).map(|_| rng.below(7)).collect();
             let origins = origins_for(&kinds);
             let o = rng.pick(&origins).clone();
             let code = *rng.pick(&[0, 7, 7, -3, 255, 65536, 32768, i32::MAX, -131072]);
@@ -3198,12 +3275,29 @@ fn gen_c09(a: &Args, w: &mut dyn Write) {
             write_batch_c09(w, &format!("qb{n}"), &mut rng, &kinds, origin, &pattern, others, mode, custom);
         }
     }
+    // seeded: 3–6 arbiters, a random ordered subset of the live ones retired
+    for n in 0..(if a.tier == "thorough" { 200 } else { 20 }) {
+        let na = rng.range(3, 7);
+        let kinds: Vec<usize> = (0..na).map(|_| [2, 2, 2, 3, 5, 1, 0, 6][rng.below(8)]).collect();
+        let mut live: Vec<usize> = (0..na).filter(|k| matches!(kinds[*k], 2 | 3 | 5)).collect();
+        let mut retire = vec![];
+        let want = if live.is_empty() { 0 } else { rng.below(live.len() + 1) };
+        for _ in 0..want {
+            retire.push(live.remove(rng.below(live.len())));
+        }
+        let mut origins = vec!["sys-pre".to_string(), "sys-task".to_string(), "foreign".to_string()];
+        origins.extend(live.iter().map(|k| format!("arb:{k}")));
+        let origin = rng.pick(&origins).clone();
+        let mode = *rng.pick(&["code", "run", "block"]);
+        write_retire_c09(w, &format!("qr{n}"), &mut rng, &kinds, &retire, &origin, mode);
+    }
     // malformed / not applicable: answered `bad-op` identically by both sides
     writeln!(w, "case bad1 c09\narb early\nstop arb:0 7\nstop arb:3 7\narb idle\ngo code j=1\nstop sys-pre x\nstop sys-task 1\nstop sys-pre 2 seq\nstop sys-pre 2 race\nstop foreign 3\narb running\ngo walk j=1\ngo code j=5\ngo code j=6").unwrap();
     writeln!(w, "case bad2 c09\narb running\narb running\narb running\narb running\nspawn 0 own fn\ngo code").unwrap();
     writeln!(w, "case bad3\narb running\nstop sys-pre 0\ngo code j=0").unwrap();
     writeln!(w, "case bad4 c09\nalign 0\narb done\nalign 1\nalign x\nalign 0\nalign 0\narb running\nstop arb:0 1\nstop foreign 1\nalign 0\ngo code j=2").unwrap();
     writeln!(w, "case bad5 c09 rt=custom\narb running\nbatch\nbatch foreign s1\nbatch sys-pre\nbatch sys-pre seq\nbatch arb:1 s1\nbatch sys-pre s1 nx\nbatch sys-pre sx\nbatch sys-pre s1 s2 s3 s4 s5 s6\nbatch sys-pre nr nr nr\nbatch sys-pre nr seq race\nbatch sys-pre nr\ngo code j=1\nbatch sys-task s1\nstop sys-task 1\nstop sys-pre 2 seq\nstop sys-pre 3 race\nstop foreign 4\ngo code j=3").unwrap();
+    writeln!(w, "case bad11 c09\narb running\narb early\narb running\narb backlog\nretire 1\nretire 3\nretire 0 0\nretire 0 9\nretire\nretire 2\nretire 0\narb running\nstop arb:2 1\nstop arb:3 1\nstop arb:0 4\nretire 0\ngo code j=11").unwrap();
     writeln!(w, "case bad10 c09\nsysfeed\nsysfeed\narb feeding\narb feed\nbatch sys-pre nf nx s1\nbatch sys-pre nf s1\nsysfeed\ngo code j=2").unwrap();
     writeln!(w, "case bad9 c09\narb running\nbatch sys-pre nr s1\ngo block j=1\ngo blok j=1\ngo block\ngo run j=2\ngo block j=3").unwrap();
     writeln!(w, "case bad8 c09\nbatch foreign nr s1\nbatch foreign x nr\nbatch sys-pre xx\nbatch sys-pre X\nbatch foreign x\ngo code j=9\nstop sys-task 3\ngo code j=9").unwrap();
